@@ -85,6 +85,23 @@ def _to_number(s):
             return float('nan')
 
 
+def to_number(x):
+    if isinstance(x, bool):
+        return 1 if x else 0
+    if isinstance(x, (int, float)):
+        return x
+    if isinstance(x, str):
+        return _to_number(x)
+    if x is None:
+        return 0
+    return float('nan')
+
+
+def floor(x):
+    import math
+    return math.floor(x)
+
+
 def lt(a, b):
     if isinstance(a, str) and not isinstance(b, str):
         a = _to_number(a)
